@@ -20,6 +20,7 @@ harness and rendered as a Gallina `case` term):
   [14, ..as 9.., [accept_all, [rt8..]]]   process_nlri_change with a real RtcFilter (from_paths)
   [15, [[local_pref, filtered, nexthop_invalid]..]]   the change stream of the real Table::restale_llgr for one destination
   [17, has_family, ctx, emax, raddr, cid?, family, [change..], policy?, [[dest, key]..]]   the real handle_prefix_update for every change, into the real PendingTx
+  [18, 1, ctx, emax, raddr, cid?, family, [change..] before, policy1?, probes, [change..] walk, policy2?]   then the real apply_refresh_walk
   [16, ..as 11..]                         the scenario of 11 through the real TableManager (insert_route, event channel, mark_llgr_stale)
   [12, ..as 9.., policy]                  process_nlri_change with a real one-statement table::PolicyAssignment
                                           policy = [nh_action?, med_action?, statement disposition, default disposition, as_prepend?]
@@ -213,7 +214,7 @@ def case_coq(c):
         body = 'CProcessPol %s %d %s %s %s %s %s (Build_stmt %s %s %s) %s %s' % (
             c_ctx(c[1]), c[2], c_ip(c[3]), copt(c[4], c_num), c_change(c[5]), c_emap(c[6]), cbytes(c[7]),
             copt(pol[0], c_nha), copt(pol[1], c_med), dn[pol[2]], copt(pol[4] if len(pol) > 4 else [], c_pre), dn[pol[3]])
-    elif t == 17:
+    elif t in (17, 18):
         dn = ['DPass', 'DAccept', 'DReject']
         def c_nha(a):
             return ['(NaAddress %s)' % c_ip(a[1]) if a[0] == 0 else None, 'NaSelf', 'NaPeer', 'NaUnchanged'][a[0]] if a[0] else '(NaAddress %s)' % c_ip(a[1])
@@ -224,9 +225,15 @@ def case_coq(c):
         def c_pol(pol):
             return '(Build_stmt %s %s %s, %s, %s)' % (copt(pol[0], c_nha), copt(pol[1], c_med), dn[pol[2]],
                                                        copt(pol[4] if len(pol) > 4 else [], c_pre), dn[pol[3]])
-        body = 'CUpdates %s %s %d %s %s %s %s %s' % (
-            c_bool(c[1]), c_ctx(c[2]), c[3], c_ip(c[4]), copt(c[5], c_num), cl([c_change(ch) for ch in c[7]]),
-            copt(c[8], c_pol), cl(['(%d, %d)' % (dk[0], dk[1]) for dk in c[9]]))
+        if t == 17:
+            body = 'CUpdates %s %s %d %s %s %s %s %s' % (
+                c_bool(c[1]), c_ctx(c[2]), c[3], c_ip(c[4]), copt(c[5], c_num), cl([c_change(ch) for ch in c[7]]),
+                copt(c[8], c_pol), cl(['(%d, %d)' % (dk[0], dk[1]) for dk in c[9]]))
+        else:
+            body = 'CRefresh %s %d %s %s %s %s %s %s %s' % (
+                c_ctx(c[2]), c[3], c_ip(c[4]), copt(c[5], c_num), cl([c_change(ch) for ch in c[7]]),
+                cl([c_change(ch) for ch in c[10]]), copt(c[8], c_pol), copt(c[11], c_pol),
+                cl(['(%d, %d)' % (dk[0], dk[1]) for dk in c[9]]))
     elif t == 15:
         # the eligible paths in their order after marking: by LOCAL_PREF, highest first (all
         # paths are the marked peer's, so staleness does not separate them)
@@ -485,7 +492,7 @@ def source_fingerprint(repo):
 class Prop:
     pid = 'C09'
     props_file = 'Props/C09.v'
-    required_theorems = ['no_echo', 'no_ibgp_nonclient_to_nonclient', 'no_rs_boundary_crossing', 'loops_never_installed', 'ebgp_rewrite', 'ebgp_any_policy', 'ibgp_rewrite', 'ibgp_local_pref_any_policy', 'reflection_adds_originator_and_cluster', 'confed_rewrite', 'llgr_stale_marked', 'llgr_stale_readvertised', 'llgr_stale_readvertised_refuted', 'unknown_attr_rule', 'unknown_attr_rule_any_policy', 'as_path_prepend_spec', 'as_path_full_segment_rule', 'as_path_strip_confed_spec', 'as_path_count_spec', 'ebgp_policy_med', 'policy_actions_keep_decodable', 'no_panic_on_decodable', 'as_path_view_unambiguous', 'llgr_view_refreshed', 'llgr_refresh_addpath', 'llgr_refresh_best_only', 'llgr_stream_best_only', 'as_path_prepend_total', 'export_map_covers_view_addpath', 'export_map_covers_view_addpath_history', 'llgr_stream_addpath', 'no_llgr_route_withdrawn', 'llgr_scenario_full_without_no_llgr', 'export_map_within_view_addpath', 'export_map_exact_addpath_history', 'queued_announcements_are_advertised', 'family_not_negotiated_sends_nothing', 'propagation_exactly_where_allowed', 'kernel_routes_withheld_from_nonclient_ibgp', 'best_only_complete', 'history_view_allowed', 'process_change_r_lower', 'process_change_r_lift', 'policy_prepend_then_export', 'loop_free_installed', 'rtc_filter_is_a_policy_wrapper', 'export_map_tracks_view', 'export_map_tracks_view_history']
+    required_theorems = ['no_echo', 'no_ibgp_nonclient_to_nonclient', 'no_rs_boundary_crossing', 'loops_never_installed', 'ebgp_rewrite', 'ebgp_any_policy', 'ibgp_rewrite', 'ibgp_local_pref_any_policy', 'reflection_adds_originator_and_cluster', 'confed_rewrite', 'llgr_stale_marked', 'llgr_stale_readvertised', 'llgr_stale_readvertised_refuted', 'unknown_attr_rule', 'unknown_attr_rule_any_policy', 'as_path_prepend_spec', 'as_path_full_segment_rule', 'as_path_strip_confed_spec', 'as_path_count_spec', 'ebgp_policy_med', 'policy_actions_keep_decodable', 'no_panic_on_decodable', 'as_path_view_unambiguous', 'llgr_view_refreshed', 'llgr_refresh_addpath', 'llgr_refresh_best_only', 'llgr_stream_best_only', 'as_path_prepend_total', 'export_map_covers_view_addpath', 'export_map_covers_view_addpath_history', 'llgr_stream_addpath', 'no_llgr_route_withdrawn', 'llgr_scenario_full_without_no_llgr', 'export_map_within_view_addpath', 'export_map_exact_addpath_history', 'queued_announcements_are_advertised', 'family_not_negotiated_sends_nothing', 'refresh_announcements_are_advertised', 'propagation_exactly_where_allowed', 'kernel_routes_withheld_from_nonclient_ibgp', 'best_only_complete', 'history_view_allowed', 'process_change_r_lower', 'process_change_r_lift', 'policy_prepend_then_export', 'loop_free_installed', 'rtc_filter_is_a_policy_wrapper', 'export_map_tracks_view', 'export_map_tracks_view_history']
     correspondence_name = ('Model/Export.v run_case vs daemon/src/event/export.rs + packet/src/bgp.rs AS_PATH edits '
                            '(harness/daemon/export_hx.rs)')
     rule = ('cases = one call of a real function each (AS_PATH edit, is_as_loop, export_attrs, pre_policy_defaults, '
@@ -508,7 +515,8 @@ class Prop:
         'are property C14',
         'the caller: the real PeerSession::handle_prefix_update (family negotiated or not, its own send-max lookup, address, cluster id, export '
         'context, session export policy) and the real PendingTx::reach / unreach / drain_messages are run on histories (kind 17); the RTC branch '
-        'of handle_prefix_update (VPN families) and BMP senders are not entered',
+        'of handle_prefix_update (VPN families) and BMP senders are not entered; the real PeerSession::apply_refresh_walk runs after such a '
+        'history, under the same or another session export policy (kind 18)',
         'BMP Adj-RIB-Out notifications of process_nlri_change are passed as None (they do not feed back); the RTC filter is None or a real '
         'RtcFilter built with from_paths from wildcard / exact-match RTC NLRIs (model: with_rtc, a wrapper around the policy)',
         'HashSet iteration order of the Add-Path withdrawals and the partition_point position of an injected LOCAL_PREF in a '
@@ -1075,6 +1083,14 @@ class Prop:
                 for pl in ([own], [own, oth_], [oth_, own]):
                     add('cls_caller_arguments', [17, 1, self.a_ctx(d_), emax_, self.A_RX, self.cid_for(d_), IPV4,
                                                  [[IPV4, 1, 1, 1, [], pl]], [], self.PROBES17])
+                    add('cls_route_refresh', [18, 1, self.a_ctx(d_), emax_, self.A_RX, self.cid_for(d_), IPV4,
+                                              [[IPV4, 1, 1, 1, [], pl]], [], self.PROBES17, [[IPV4, 1, 1, 1, [], pl]], []])
+        # ---- route refresh: the fixed histories, then a walk under no / another export policy
+        for cls_, case_ in list(out):
+            if cls_ == 'cls_fixed_histories':
+                c17 = self.to_updates(case_, [])
+                for pol2 in ([], [[[], [[1, 5]], 1, 2, []]], [[[], [], 2, 1, []]], [[[[1]], [], 1, 2, []]]):
+                    add('cls_route_refresh', [18] + c17[1:] + [self.walk_of(case_[6]), pol2])
         # ... the real-table scenario once more through the real TableManager (insert_route, the
         # neighbour's event channel, mark_llgr_stale)
         for cls_, case_ in list(out):
@@ -1217,6 +1233,9 @@ class Prop:
         for _ in range(120 * scale):
             h = self.gen_history(rng)
             cases.append(self.to_updates(h, [self.gen_policy(rng)] if rng.random() < 0.4 else [], 1 if rng.random() < 0.92 else 0))
+        # --- a route refresh after a history, possibly under a new export policy
+        for _ in range(80 * scale):
+            cases.append(self.gen_refresh(rng))
         # --- the LLGR period begins for the source of an advertised route
         for s_, d, cid, confed in self.matrix():
             if s_[0] != 2 or confed:
@@ -1309,6 +1328,20 @@ class Prop:
         """a history (kind 13) as a run of the real handle_prefix_update (kind 17)"""
         return [17, has_family, h[1], h[2], h[3], h[4], h[5], h[6], pol, self.PROBES17]
 
+    def walk_of(self, changes):
+        """what collect_loc_rib_paths reports for the destinations the history ends with"""
+        last = {}
+        for ch in changes:
+            last[ch[1]] = ch
+        return [[ch[0], ch[1], 1, 1, [], ch[5]] for d_, ch in sorted(last.items()) if ch[5]]
+
+    def gen_refresh(self, rng):
+        h = self.gen_history(rng)
+        pol1 = [self.gen_policy(rng)] if rng.random() < 0.3 else []
+        pol2 = [self.gen_policy(rng)] if rng.random() < 0.6 else []
+        c = self.to_updates(h, pol1)
+        return [18] + c[1:] + [self.walk_of(h[6]), pol2]
+
     def gen_policy(self, rng):
         nh = []
         k = rng.random()
@@ -1383,9 +1416,10 @@ class Prop:
             lists = [c[7]]
         elif t == 13 and c[1][0] in (IBGP, RRC):
             lists = [p[3] for ch in c[6] for p in ch[5]]
-        elif t == 17 and c[2][0] in (IBGP, RRC):
-            lists = [p[3] for ch in c[7] for p in ch[5]]
-            if c[8] and (c[8][0][1] or (len(c[8][0]) > 4 and c[8][0][4])):
+        elif t in (17, 18) and c[2][0] in (IBGP, RRC):
+            lists = [p[3] for ch in c[7] + (c[10] if t == 18 else []) for p in ch[5]]
+            pols = [c[8]] + ([c[11]] if t == 18 else [])
+            if any(pl and (pl[0][1] or (len(pl[0]) > 4 and pl[0][4])) for pl in pols):
                 return any(find(l, LOCAL_PREF) is None for l in lists)
         else:
             return False
@@ -1408,7 +1442,7 @@ class Prop:
             return [ops, obs[1]]
         if t in (11, 16):
             return [[[o[0], o[1], o[2], o[3], srt(o[4]), o[5]] if o[0] == 1 else o for o in ph] for ph in obs]
-        if t == 17:
+        if t in (17, 18):
             return [[[e_[0], e_[1], srt(e_[2])] if e_ and e_[0] == 1 else e_ for e_ in obs[0]], obs[1]]
         return obs
 
@@ -1492,6 +1526,11 @@ class Prop:
             return None
         if t in (9, 12, 14):
             return self.oracle_process(c, obs)
+        if t == 18:
+            if obs == [-1]:
+                return None
+            ops = [[1, dk[0], dk[1], e_[1], e_[2], []] for dk, e_ in zip(c[9], obs[0]) if e_ and e_[0] == 1]
+            return self.oracle_history([13, c[2], c[3], c[4], c[5], c[6], c[10], []], [ops, []], pol=(c[11][0] if c[11] else None))
         if t == 17:
             if obs == [-1]:
                 if all(attrs_wf(p_[3]) for ch in c[7] for p_ in ch[5]) and not (c[8] and len(c[8][0]) > 4 and c[8][0][4]):
@@ -1756,7 +1795,7 @@ class Prop:
             return (t, c[1][0], c[5][5], c[2], bool(c[4]), len(obs[0]), len(obs[1])) if obs[0] else None
         if t == 15:
             return (t, json.dumps([sp[1:] for sp in c[1]]), len(obs)) if obs != [-1] else None
-        if t == 17:
+        if t in (17, 18):
             return (t, c[2][0], min(c[3], 2), bool(c[8]), json.dumps([e_[:1] for e_ in obs[0]]), json.dumps(obs[1])) if any(obs[0]) else None
         if t == 13:
             return (t, c[1][0], min(c[2], 2), tuple((o[0], o[1], o[2]) for o in obs[0]), json.dumps(obs[1])) if obs[0] else None
@@ -1764,7 +1803,7 @@ class Prop:
 
     def classify(self, c, obs):
         names = ['prepend', 'strip_confed', 'is_as_loop', 'export_attrs', 'pre_policy_defaults', 'rr_reflect',
-                 'llgr_stale', 'inject_local_pref', 'suppress_predicates', 'process_nlri_change', 'rx_update', 'llgr_scenario', 'process_nlri_change_policy', 'history', 'process_nlri_change_rtc', 'restale_llgr_stream', 'llgr_scenario_table_manager', 'handle_prefix_update_pending_tx']
+                 'llgr_stale', 'inject_local_pref', 'suppress_predicates', 'process_nlri_change', 'rx_update', 'llgr_scenario', 'process_nlri_change_policy', 'history', 'process_nlri_change_rtc', 'restale_llgr_stream', 'llgr_scenario_table_manager', 'handle_prefix_update_pending_tx', 'apply_refresh_walk']
         tags = ['op_' + names[c[0]]]
         cls = getattr(self, '_cls', {}).get(id(c))
         if cls:
